@@ -226,3 +226,18 @@ func RefsOf(refDB []byte) (map[string][]byte, error) {
 	defer db.Close()
 	return db.Filter(nil, nil)
 }
+
+func writeTemp(b []byte) (string, error) {
+	f, err := os.CreateTemp("", "tmpdb-*")
+	if err != nil {
+		return "", err
+	}
+	f.Write(b)
+	f.Close()
+	return f.Name(), nil
+}
+
+func removeTemp(name string) {
+	os.Remove(name)
+	os.Remove(name + "-journal")
+}
